@@ -34,5 +34,13 @@ def single_batch(ctx, rid, fn, allow_after_commit=("store_tx",), group=None):
     run.instance(rid, {"fn": pp.short(fn.id), "obligation": "no batch write after commit()", "writes": len(eb)}, held=held2)
     if not held2:
         run.finding(Finding(rid, fn.id, "batch write reachable after commit()", site=c.site_of(fn, late[0]), detail=str(sorted(eb[late[0]]))))
-    ok3 = c.require_pass(ctx, rid, fn.id, c.WOB + "commit", ("okret",), "Ok return requires commit Ok")
+    # once the batch exists, Ok is returned only after commit Ok (an early Ok return before any batch is fine)
+    ce, _n = c.guard_edges(ctx, fn, c.WOB + "commit", rid)
+    bt = batches[0][1]["t"]
+    par = cfg.reach(fn, starts=[bt] if bt is not None else [], cut_edges=ce, cut_nodes=cfg.error_return_blocks(fn))
+    bad = [b for b in cfg.return_blocks(fn) if b in par]
+    ok3 = not bad and bool(ce)
+    run.instance(rid, {"fn": pp.short(fn.id), "obligation": "after batch() the function returns Ok only through commit Ok"}, held=ok3)
+    if not ok3:
+        run.finding(Finding(rid, fn.id, "Ok return after batch() without commit Ok", site=fn.loc()))
     return held and held2 and ok3
